@@ -256,3 +256,39 @@ pub fn mul_small(s: u64, bits: u32, b: &W) -> W {
     }
     acc
 }
+/// number of significant bits
+#[inline(always)]
+pub fn bit_len(a: &W) -> u32 {
+    if a[3] != 0 {
+        256 - a[3].leading_zeros()
+    } else if a[2] != 0 {
+        192 - a[2].leading_zeros()
+    } else if a[1] != 0 {
+        128 - a[1].leading_zeros()
+    } else {
+        64 - a[0].leading_zeros()
+    }
+}
+/// a << k for k < 256 (bits shifted out are lost)
+pub fn shl(a: &W, k: u32) -> W {
+    let limbs = (k / 64) as usize;
+    let bits = k % 64;
+    let mut t = ZERO;
+    let mut i = 0;
+    while i < 4 {
+        if i >= limbs {
+            t[i] = a[i - limbs];
+        }
+        i += 1;
+    }
+    if bits == 0 {
+        t
+    } else {
+        [
+            t[0] << bits,
+            (t[1] << bits) | (t[0] >> (64 - bits)),
+            (t[2] << bits) | (t[1] >> (64 - bits)),
+            (t[3] << bits) | (t[2] >> (64 - bits)),
+        ]
+    }
+}
